@@ -19,7 +19,7 @@ RULE = ("C01's schemas and reachable states (a valid prefix history), then faili
         "fields/include_field.py during loads/load; whenever such an operation raises, M-same compares values at all "
         "depths, user-defined flags and identities of nested configurations before/after; non-trivial = >= 2 "
         "raising listed operations judged; distinct = distinct (schema, history)")
-REQUIRED = ("rejected_replacements_through_an_equal_key_of_another_type", "dotted_continuations_into_nested_dicts_rejected", "derived_containers_rejected_by_field_validator", "list_reuse_rejections", "wrong_root_documents_rejected", "incomplete_objects_rejected", "incomplete_maps_rejected", "dotted_into_dict_rejections", "corrupt_include_files", "same_checks", "raised:set", "raised:set-sub", "raised:ctor", "raised:listop", "raised:dictop",
+REQUIRED = ("foreign_items_rejected_by_a_second_configuration", "readonly_assignments_rejected", "rejected_replacements_through_an_equal_key_of_another_type", "dotted_continuations_into_nested_dicts_rejected", "derived_containers_rejected_by_field_validator", "list_reuse_rejections", "wrong_root_documents_rejected", "incomplete_objects_rejected", "incomplete_maps_rejected", "dotted_into_dict_rejections", "corrupt_include_files", "same_checks", "raised:set", "raised:set-sub", "raised:ctor", "raised:listop", "raised:dictop",
             "raised:loads-unparsable", "raised:loads-include", "failpoint_injections_raised")
 ASSUMPTIONS = ["only the kinds of operation listed in the property are judged (a tree that parses but fails validation "
                "half way, extend / slice / update with a bad element are outside the statement)",
@@ -32,6 +32,16 @@ def generate(rng, ctx):
     thorough = ctx.tier == "thorough"
     schema = gen.gen_schema(rng, depth=rng.choice([1, 2, 3] if thorough else [1, 2]), width=rng.choice([3, 4, 5]))
     env = gen.GEN_ENV
+    if rng.random() < 0.35:
+        # computed fields without a setter and instance methods: names of the configuration that cannot be assigned
+        from .c20 import gen_method
+
+        holders = [schema] + [nd for p0, nd in history.all_paths(schema) if nd["kind"] == "schema" and "[]" not in p0]
+        for _ in range(rng.choice([1, 2])):
+            h = rng.choice(holders)
+            k = gen.pick_keys(rng, 1, avoid={ch["key"] for ch in h["fields"]})[0]
+            h["fields"].append({"kind": "field", "key": k, "family": "virtual", "params": {"returns": "v"}} if rng.random() < 0.6
+                               else gen_method(rng, k))
     # some typed lists / dicts carry a field-level validator callback that limits their size
     for path, nd in history.all_paths(schema):
         if "[]" not in path and nd["kind"] == "field" and nd["family"] in ("list", "dict") and history._typed(nd) and rng.random() < 0.5:
@@ -319,8 +329,103 @@ def run(case, ctx, res):
             res.viol("M-same", "%s:%s" % (out["kind"], fam), "step %d: %s at %r raised %s: %s but the configuration changed: %s" % (
                 idx, out["kind"], out["path"], type(out["raised"]).__name__, str(out["raised"])[:120], "; ".join(diff[:4])))
             return
+    # a configuration object held by a list of THIS configuration is offered to the same list of a second configuration and
+    # rejected there (it lacks a required value): it stays with the configuration that holds it - same parent, same
+    # container - and this configuration is unchanged
+    if _foreign_item_rejections(drv, ctx, res) is False:
+        return
+    # assignments to names that cannot be assigned at all - computed fields without a setter, instance methods - are rejected
+    # assignments by attribute / dotted path like any other, and leave the configuration as it was
+    for p, nd in spec.walk(drv.root):
+        if nd["kind"] != "field" or "[]" in p or nd["family"] not in ("virtual", "method"):
+            continue
+        if nd["family"] == "virtual" and (nd["params"].get("setter") or nd["params"].get("forward")):
+            continue
+        try:
+            holder = spec.get_path(drv.cfg, p.rpartition(".")[0]) if "." in p else drv.cfg
+        except Exception:
+            continue
+        if not isinstance(holder, ctx.cc.Config):
+            continue
+        key = p.rpartition(".")[2]
+        for route in ("attr", "dotted"):
+            before = drv.snapshot()
+            try:
+                if route == "attr":
+                    setattr(holder, key, 5)
+                else:
+                    drv.cfg[p] = 5
+            except Exception:
+                res.count("readonly_assignments_rejected")
+                d = before.diff(drv.snapshot())
+                if d:
+                    res.viol("M-same", "set-readonly:" + nd["family"], "assigning to the %s %s (%s) raised, but the configuration changed: %s" % (
+                        "computed field" if nd["family"] == "virtual" else "instance method", p, route, "; ".join(d[:4])))
+                    return
     if judged >= 2:
         res.nontrivial(case["schema"], case["prefix"], case["ops"])
+
+
+def _foreign_item_rejections(drv, ctx, res):
+    cc = ctx.cc
+    twin = None
+    for p, nd in spec.walk(drv.root):
+        if nd["kind"] != "field" or nd["family"] != "list" or "[]" in p or not nd.get("item") or nd["item"]["kind"] == "field":
+            continue
+        req = [ch["key"] for ch in model.stored_children(nd["item"]) if ch["kind"] == "field" and ch.get("params", {}).get("required")
+               and ch["params"].get("default") is None and ch["family"] not in ("flag", "include", "virtual", "method")]
+        try:
+            lst = spec.get_path(drv.cfg, p)
+        except Exception:
+            continue
+        if not req or not isinstance(lst, list) or not len(lst) or not isinstance(lst[0], cc.Config):
+            continue
+        it = lst[len(lst) // 2]
+        try:
+            if twin is None:
+                twin = cc.Config(drv.built.schema, key_filename=drv.keyfile)
+            target = spec.get_path(twin, p)
+            if target is None:
+                twin[p] = []
+                target = spec.get_path(twin, p)
+            if target is None:
+                continue
+            saved = it[req[0]]
+            cc.reset_value(it, req[0])
+        except Exception:
+            continue
+        if it[req[0]] is not None:
+            continue
+        before = drv.snapshot()
+        owner = (it._parent, it._container)
+        for route in ("append", "insert", "slice", "extend"):
+            try:
+                if route == "append":
+                    target.append(it)
+                elif route == "insert":
+                    target.insert(0, it)
+                elif route == "slice":
+                    target[0:0] = [it]
+                else:
+                    target.extend([it])
+            except Exception:
+                res.count("foreign_items_rejected_by_a_second_configuration")
+                if it._parent is not owner[0] or it._container is not owner[1]:
+                    res.viol("M-same", "foreign-item-ownership:" + route, "the item %s[%d] of this configuration was offered to the same "
+                             "list of a second configuration (%s) and rejected, but now it names %s as its parent and %s as its "
+                             "container" % (p, len(lst) // 2, route, "the second configuration" if it._parent is twin else "another object",
+                                            "the second configuration's list" if it._container is target else "another list"))
+                    return False
+                d = before.diff(drv.snapshot())
+                if d:
+                    res.viol("M-same", "foreign-item:" + route, "offering %s[%d] to a second configuration raised, but this configuration "
+                             "changed: %s" % (p, len(lst) // 2, "; ".join(d[:4])))
+                    return False
+        try:
+            it[req[0]] = saved
+        except Exception:
+            pass
+    return True
 
 
 def _caused_by_injection(exc):
